@@ -9,6 +9,14 @@ python3 tools/gen_help.py
 # /repo's own binary without hooks (start-up validation, -g, DIE: checks C20 and C11)
 mkdir -p work && (cd /repo && cargo build --offline --target-dir /verif/work/bin-target 2>&1 | tail -2)
 (cd lean && lake build ircmodel Irc 2>&1 | tail -3)
-# property modules (theorems); built here once so that the checks only re-check what changed
-(cd lean && for f in Irc/Props/*.lean Irc/InvProofs/*.lean; do m=$(echo "$f" | sed 's/\.lean$//; s#/#.#g'); echo $m; done | xargs lake build 2>&1 | tail -3) || true
+# property modules (theorems) registered in vlib/props.py; built here once so that the checks only re-check what changed
+(cd lean && python3 -c "
+import sys; sys.path.insert(0, '/verif')
+from vlib.props import P
+mods = []
+for k in sorted(P):
+    for m in [P[k]['module']] + P[k].get('extra_modules', []):
+        if m not in mods: mods.append(m)
+print(' '.join(mods))
+" | xargs lake build 2>&1 | tail -3) || true
 echo setup done
